@@ -82,6 +82,39 @@ func (c *Ctx) findDisasm() (*ast.FuncDecl, *ast.SwitchStmt) {
 			}
 			sig := obj.Type().(*types.Signature)
 			if sig.Results().Len() != 1 || !isInt(sig.Results().At(0).Type()) {
+				// the dispatch in a function that returns the text and the width: the decoder is its caller that
+				// turns them into the next offset
+				if sig.Results().Len() == 2 && isInt(sig.Results().At(1).Type()) {
+					for _, s := range fd.Body.List {
+						if sw, ok := s.(*ast.SwitchStmt); ok && sw.Tag != nil && isNamed(c.typeOf(sw.Tag), bclPath, "opcode") {
+							for _, f2 := range c.Bcl.Syntax {
+								for _, d2 := range f2.Decls {
+									cd, ok := d2.(*ast.FuncDecl)
+									if !ok || cd.Body == nil || cd == fd || cd == vmfd {
+										continue
+									}
+									co, _ := c.Bcl.TypesInfo.Defs[cd.Name].(*types.Func)
+									if co == nil {
+										continue
+									}
+									cs := co.Type().(*types.Signature)
+									if cs.Results().Len() != 1 || !isInt(cs.Results().At(0).Type()) {
+										continue
+									}
+									calls := false
+									walkCalls(cd.Body, false, func(call *ast.CallExpr) {
+										if c.callee(call) == types.Object(obj) {
+											calls = true
+										}
+									})
+									if calls {
+										return cd, sw
+									}
+								}
+							}
+						}
+					}
+				}
 				continue
 			}
 			for _, s := range fd.Body.List {
